@@ -226,6 +226,7 @@ func ccbAcceptCase(label string, gs []ccbGreet, old []string) *ccbOut {
 	defer func() {
 		if r := recover(); r != nil {
 			o.violations = append(o.violations, Violation{Property: "C13", Key: "C13:panic:ccb-accept", What: fmt.Sprint("panic: ", r), Ops: o.cs.Ops})
+			o.count("harness-panic-swallowed") // the case is lost for C20 whoever panicked: ./check reports it
 		}
 	}()
 	id, _ := ccb.GenerateConnectID()
@@ -363,16 +364,18 @@ func ccbProxyCase(label string, reply string, msg string, hello ccbGreet, old []
 	defer func() {
 		if r := recover(); r != nil {
 			o.violations = append(o.violations, Violation{Property: "C13", Key: "C13:panic:ccb-proxy", What: fmt.Sprint("panic: ", r), Ops: o.cs.Ops})
+			o.count("harness-panic-swallowed") // the case is lost for C20 whoever panicked: ./check reports it
 		}
 	}()
 	id, _ := ccb.GenerateConnectID()
 	env := claimEnv{id: id, old: old}
 	rc, bc := net.Pipe()
-	timeout := 3 * time.Second
-	if hello.Class == "silent" && reply == "ok" {
-		timeout = 40 * time.Millisecond
-	}
-	ctx, cancel := context.WithTimeout(bg, timeout)
+	// a silent hello after a success reply: the library waits for a hello that never comes and is
+	// ended through its context. The cancel is tied to the EVENT "the reply has been consumed" (net.Pipe
+	// is synchronous: Write returns when the library has read every byte), not to a clock that might
+	// run out before the reply was even read on a busy machine.
+	silentOK := hello.Class == "silent" && reply == "ok"
+	ctx, cancel := context.WithTimeout(bg, ccbIOBound)
 	defer cancel()
 	type res struct {
 		conn net.Conn
@@ -414,9 +417,13 @@ func ccbProxyCase(label string, reply string, msg string, hello ccbGreet, old []
 			_ = bc.Close()
 			return
 		}
-		_ = bc.SetWriteDeadline(time.Now().Add(time.Second))
+		_ = bc.SetWriteDeadline(time.Now().Add(ccbIOBound))
 		if _, err := bc.Write(append(pre, b...)); err != nil {
 			return
+		}
+		if silentOK {
+			time.Sleep(2 * time.Millisecond) // let it park in the read of the hello (either way it must end with the context's error)
+			cancel()
 		}
 		if after != "open" {
 			_ = bc.Close()
@@ -425,7 +432,7 @@ func ccbProxyCase(label string, reply string, msg string, hello ccbGreet, old []
 	var r res
 	select {
 	case r = <-resCh:
-	case <-time.After(5 * time.Second):
+	case <-time.After(3 * ccbIOBound):
 		o.violations = append(o.violations, Violation{Property: "C19", Key: "C19:ccb-proxy-hung", What: "proxyRequestOnStream did not return", Ops: o.cs.Ops})
 	}
 	_ = bc.Close()
@@ -556,6 +563,7 @@ func ccbDialCase(sp ccbDialSpec, old []string) *ccbOut {
 	defer func() {
 		if r := recover(); r != nil {
 			o.violations = append(o.violations, Violation{Property: "C13", Key: "C13:panic:ccb-dial", What: fmt.Sprint("panic: ", r), Ops: o.cs.Ops})
+			o.count("harness-panic-swallowed") // the case is lost for C20 whoever panicked: ./check reports it
 		}
 	}()
 	wctx, wcancel := context.WithCancel(bg)
@@ -627,9 +635,9 @@ func ccbDialCase(sp ccbDialSpec, old []string) *ccbOut {
 	winB, winK := -1, -1
 	if conn != nil {
 		tokn := []byte(fmt.Sprintf("verif-token-%d", t0.UnixNano()))
-		_ = conn.SetWriteDeadline(time.Now().Add(time.Second))
+		_ = conn.SetWriteDeadline(time.Now().Add(ccbIOBound))
 		_, _ = conn.Write(tokn)
-		deadline := time.Now().Add(2 * time.Second)
+		deadline := time.Now().Add(ccbIOBound)
 	search:
 		for time.Now().Before(deadline) {
 			for _, b := range w.brokers {
@@ -1330,6 +1338,26 @@ func runCcb(c *Ctx) error {
 		}(i)
 	}
 	wg.Wait()
+	// A dial case runs on real sockets and the library's own clocks, six at a time: a finding is judged
+	// only after the case, run again ON ITS OWN, shows it again (the scripted brokers make the case
+	// deterministic up to scheduling; a defect of the library is there the second time too).
+	for i := range dres {
+		first := dres[i]
+		if first == nil || len(first.violations) == 0 || int(ccbViolations.Load())-len(first.violations) >= ccbEnough {
+			continue
+		}
+		ccbViolations.Add(-int32(len(first.violations)))
+		again := ccbDialCase(specs[i], old)
+		if again != nil && len(again.cs.Ops) > 0 {
+			again.count("dial:violation-rechecked-alone")
+			if len(again.violations) == 0 {
+				again.count("dial:violation-not-reproduced-alone")
+			}
+			dres[i] = again
+		} else {
+			ccbViolations.Add(int32(len(first.violations)))
+		}
+	}
 	outs = append(outs, dres...)
 	// "unguessable" on the Dial path: the ids that really travelled to the brokers, not ids obtained by
 	// calling the generator directly
@@ -1353,6 +1381,19 @@ func runCcb(c *Ctx) error {
 	var cases []Case
 	samples := map[string]bool{}
 	for _, o := range outs {
+		// planned vs run, per layer: a case whose world could not be set up, that was skipped because the
+		// machine was too busy for its clock, or that was dropped after ten violations did not run
+		planLayer := "unknown"
+		if o != nil {
+			planLayer = strings.SplitN(o.cs.Label, "/", 2)[0]
+			if strings.HasPrefix(planLayer, "dial") {
+				planLayer = "dial"
+			}
+		}
+		c.Planned("ccb-"+planLayer+"-cases", 1)
+		if o != nil && len(o.cs.Ops) > 0 {
+			c.Ran("ccb-"+planLayer+"-cases", 1)
+		}
 		if o == nil || len(o.cs.Ops) == 0 {
 			c.Count("skipped")
 			if o != nil {
